@@ -60,6 +60,9 @@ CLAIMED = {
          "C11_atan2 for every pair with |y| < 2^31 and any finite x: within 8e-5 of the true angle in (-pi, pi], sign, axis values, origin -> NaN. Ingredients: Real.arctan_add split, |arctan a - arctan b| <= |a-b| (mean value), "
          "integer bracket of the truncated kernel argument (omega with the literal segment constants), kernel-checked enumeration (28 chunks) of the polynomial kernel at all 28 672 arguments against Real.arctan via sin/cos enclosures incl. monotone unit steps, the four segment constants, the clamp. "
          "PARTIAL: the 2-ulp quasi-monotonicity clause is stated (C11_atan_mono2_full) and carried by correspondence (exhaustive on [0,200000] raw with running maximum + stratified) only.", "analytic composition (Mathlib arctan identities, omega, nlinarith) + kernel enumeration of the polynomial kernel; correspondence"),
+ "C14": ("proof", "For EVERY pair with |a|,|b| < 2^31 and any square-root back-end within one unit of the true root (SqrtNear): |hypot - sqrt(a^2+b^2)| <= 2 ulp when both operands are below 16384, <= 1.5e-4 relative otherwise; exact symmetry and sign independence; never NaN or negative. "
+         "Analytic proof over the integers for all inputs (three branches as inequalities between squares, shift amounts from countl_zero via Nat.log2, no enumeration), lifted to Real.sqrt. The abacus back-end satisfies SqrtNear by the loop-invariant theorem: C14_abacus is unconditional. "
+         "PARTIAL: for the std::sqrt back-end the theorem carries the explicit hypothesis SqrtNear .std (not yet derived from the IEEE model); that back-end is tied by correspondence on boundary pairs (clz boundaries, 2^16/2^30 thresholds, random) in both builds.", "integer inequalities (omega, nlinarith) + Real.sqrt lemmas; correspondence on both back-ends"),
 }
 NA_DEFAULT = "check under construction in this round (the framework is built property by property); not a claim that the technique cannot apply"
 
